@@ -9,14 +9,16 @@ from typing import Any
 
 from harness import c02_util as U
 from harness.common import VERIF, Ck, coq_list, coq_str
-from translate import c02_hstring, c02_tables, c03_basetok, c03_errfmt, c03_kvparse
+from translate import c02_hstring, c02_tables, c03_basetok, c03_errfmt, c03_kvparse, c03_nextchar
 
 MANIFEST = dict(
     technique='Rocq proof (generic chunked-reader = flat-reader simulation for every reader program; totality, progress, '
               'EOF-for-ever and a linear read bound for the tokenizer model by induction on fuel; push-back-stack refinement and '
               'bisimulation for the BaseTokenizer layer; exception-level model of Keyvalues.parse configured by a census of the '
-              'parse path) + exhaustive small-scope differential correspondences (in-kernel enumeration, 63-bit checksums) + '
-              'chunking / delivery / foreign-exception oracles on the implementation',
+              'parse path; _get_token / _handle_comment / _handle_string / _next_char read from the source by abstract execution into '
+              'decision trees / tables whose interpretation is proved equal to the hand model when they pass boolean conditions) + '
+              'exhaustive small-scope differential correspondences (in-kernel enumeration, 63-bit checksums) + '
+              'chunking / delivery / foreign-exception / chunk-source oracles on the implementation',
     text='Theorems in Props/C03.v: no reader program can distinguish a chunked source (the _cur_chunk/_char_index/iterator state '
          'of the real class, _next_char and the one-character push-back modelled literally) from the flat text, so token '
          'traces (kind, value, line_num, _last_was_cr, error site and line) are identical for every chunking, every option '
@@ -39,6 +41,19 @@ MANIFEST = dict(
          'The premise of the chunk-independence theorem is itself read from the source: outside __init__ and _next_char no method of '
          'Tokenizer touches _cur_chunk/_char_index/_chunk_iter except by `self._char_index -= 1`, never twice without a read (census '
          'obligations tokenizer_sees_chunks_only_through_next_char / tokenizer_pushes_back_only_after_a_read). '
+         'Round 4: the tokenizer AS WRITTEN. _get_token and _handle_comment are cut into eight segments (outer loop, the four inner loops, '
+         'the entry of _handle_comment and its two loops), each executed on abstract values into a decision tree over the class of the '
+         'character(s) read, membership in _OPERATORS / BARE_DISALLOWED, _last_was_cr, line_num == 1 and the options; a tree has a meaning as a '
+         'reader program (Text/GtTable.v gt_interp), and if the eight trees compute the model\'s functions on every consistent abstract '
+         'environment (eight obligations, complete enumeration in the kernel) the interpretation IS the hand model get_token on every input, '
+         'flat and chunked, call after call (c03_get_token_trees_are_the_model*, c03_tokenizer_as_written_any_chunking/_total, with '
+         '_handle_string from its own table). _next_char is read as a table over what the chunk iterator can do next (yield bytes / another '
+         'non-str object / empty / non-empty str, be exhausted, raise UnicodeDecodeError / another exception); under '
+         'next_char_rows_are_the_model it IS the reader cnext on str chunks (c03_next_char_is_cnext), and the first non-text item is '
+         'answered precisely: ValueError for bytes / non-str objects (not a text: outside the property, nothing silently dropped), the '
+         'tokenizer\'s own error for UnicodeDecodeError (covered by "TokenSyntaxError and nothing else"), any other exception propagates '
+         '(c03_next_char_first_non_text). A state census (no data attribute bound in the class body, no self attribute / module name '
+         'outside the modelled state read or written by the three functions, constant tables never mutated) backs "nothing outlives a call". '
          'Correspondences on every run: tokenizer model vs real Tokenizer on every string over a 23-symbol alphabet up to length 3 x '
          'all 128 option vectors in both tiers (implementation runs shared between option vectors that agree on every option a run '
          'read; thorough also length 4 x 16), random texts, reader state after '
@@ -49,12 +64,16 @@ MANIFEST = dict(
          'structured random token streams and texts. The implementation alone is checked for chunked == unchunked on all cut sets, '
          'foreign exceptions, EOF for ever, the read bound, and delivery = plain stream under peeks and push-backs.',
     note='Trusted: Coq kernel + vm_compute (incl. primitive Uint63 for checksums), the translators (c02_tables, c03_kvparse, '
-         'c03_basetok, c03_errfmt, c02_hstring), the hand models Text/Tokenizer.v, Text/BaseTok.v (helper loops) and Text/KvErrModel.v (tied by the exhaustive '
-         'differential runs), CPython str/casefold. The parser model abstracts the tree to "child list empty or not" (exact for the '
+         'c03_basetok, c03_errfmt, c02_hstring, c02_gettoken, c03_nextchar: the abstract executors are fail-closed outside their statement '
+         'languages; a wrong tree they produced would have to coincide with the model\'s function AND escape the exhaustive differential '
+         'runs), the hand models Text/BaseTok.v (helper loops) and Text/KvErrModel.v (tied by the exhaustive differential runs; Text/Tokenizer.v '
+         'is now additionally tied by the trees), CPython str/casefold. The parser model abstracts the tree to "child list empty or not" (exact for the '
          'outcome class; the tree itself is C01\'s subject) and consumes the logical token list (push_back = not consumed). '
          'FLAGS_DEFAULT entries that depend on the platform are read from the running interpreter. The literal message texts of the '
          'individual error sites are outside the models (errors are identified by site / message prefix; the text model is generic over '
-         'them). Tokenizer built from an iterator of non-str chunks (documented ValueError) is outside the property. Cython twin not covered.',
+         'them; the tree translator maps each text to its site, an unknown text is site 99 and fails the tree obligation). A chunk source '
+         'yielding non-str objects is not a text (outside the property); what happens there is nevertheless modelled (ValueError) and '
+         'checked by the chunk-source oracle. Cython twin not covered.',
 )
 
 SYN_ALPHA = ['"', '\\', '/', '*', '{', '}', '[', ']', '(', ')', '#', ':', '+', '=', ',', '\r', '\n', ' ', 'a', 'n', '\ufeff', "'", ';']
@@ -164,6 +183,7 @@ def _tracked_cls():
     return _TRACKED[0]
 
 
+@U.bounded((list(U.HANG), 127))
 def impl_results_tracked(data: Any, bits: int, ncalls: int) -> tuple[list[int], int]:
     """U.impl_results on the tracked subclass: (encoded trace, bit mask of the options read, construction included)."""
     from srctools.tokenizer import TokenSyntaxError
@@ -506,6 +526,7 @@ def _split_ints(v: str) -> list[str]:
     return [x.strip() for x in v.split(';') if x.strip()]
 
 
+@U.bounded(list(U.HANG))
 def _impl_chk_trace(bits: int, whole: bool, cs: list[str]) -> list[int]:
     from srctools.tokenizer import Tokenizer, TokenSyntaxError
     s = ''.join(cs)
@@ -548,6 +569,7 @@ def kv_kw(bits: int) -> dict:
     return dict(newline_keys=bool(bits & 1), newline_values=bool(bits & 2), single_line=bool(bits & 4), single_block=bool(bits & 8))
 
 
+@U.bounded((398, 'hang: no result within the time limit'))
 def kv_code(arg: Any, bits: int, ae: bool, flags: dict) -> tuple[int, str]:
     """Outcome class of Keyvalues.parse as KvErrGen.outcome_code encodes it (+ a description)."""
     from srctools.keyvalues import KeyValError, Keyvalues
@@ -902,6 +924,7 @@ def _got_token(mess: str) -> int:
     return 99
 
 
+@U.bounded(list(U.HANG))
 def bt_run(kind: str, ops: tuple[int, ...]) -> list[int]:
     """Run a sequence of public BaseTokenizer operations on the real class; encode as BaseTokEnum.xrun does."""
     from srctools.tokenizer import Token, TokenSyntaxError
@@ -1225,6 +1248,7 @@ def _markers(res: list[int]) -> set[int]:
     return out
 
 
+@U.bounded('hang: no result within the time limit')
 def eof_oracle(s: str, bits: int) -> str | None:
     from srctools.tokenizer import Token, Tokenizer, TokenSyntaxError
     tk = Tokenizer(s, None, **U.opts_of_bits(bits))
@@ -1263,6 +1287,7 @@ class _Counting:
         return cls.cls(data, None, **U.opts_of_bits(bits))
 
 
+@U.bounded('hang: no result within the time limit')
 def reads_oracle(s: str, bits: int, cs: list[str] | None) -> str | None:
     from srctools.tokenizer import Token, TokenSyntaxError
     tk = _Counting.make(s if cs is None else iter(cs), bits)
@@ -1281,6 +1306,7 @@ def reads_oracle(s: str, bits: int, cs: list[str] | None) -> str | None:
     return None
 
 
+@U.bounded(('FOREIGN', 'hang', 'no result within the time limit'))
 def kv_oracle(s: str, cs: list[str] | None, **kw) -> tuple:
     """Outcome of Keyvalues.parse: ('ok', tree) / ('KeyValError', message, line) / ('FOREIGN', type)."""
     from srctools.keyvalues import KeyValError, Keyvalues
@@ -1360,6 +1386,7 @@ def report_tok(ck: Ck, kind: str, s: str, bits: int, cs: list[str] | None) -> No
 
 
 
+@U.bounded([])
 def _plain_stream(s: str, bits: int) -> list:
     """Tokens of a fresh tokenizer by plain calls, up to EOF; a final ('ERR', message, line) if it raises."""
     from srctools.tokenizer import Token, Tokenizer, TokenSyntaxError
@@ -1378,6 +1405,7 @@ def _plain_stream(s: str, bits: int) -> list:
     return out
 
 
+@U.bounded('hang: no result within the time limit')
 def basetok_delivery(s: str, bits: int, plan: list[str], chunks: list[str] | None = None) -> str | None:
     """Delivery = underlying stream on the real class: following `plan` (call / peek+call / peek twice / push two and pop
     them), the tokens returned by calls must be the plain stream; returns a description of the first deviation."""
@@ -1509,9 +1537,131 @@ def search(ck: Ck, escalate: bool) -> None:
                              {'kind': 'kvparse-chunks', 'text': [ord(c) for c in small], 'kw': kw})
                 break
     basetok_search(ck, big)
-    errtext_oracle(ck)
-    premade_oracle(ck)
+    U.stage_bounded(ck, "error-text-oracle", errtext_oracle, ck)
+    U.stage_bounded(ck, 'premade-tokenizer-oracle', premade_oracle, ck)
+    source_kind_oracle(ck)
     ck.sample({'oracle_example': {'text': 'a\r\n/*x*/b', 'chunks': ['a\r', '', '\n/*x*', '/b'], 'check': 'same trace as the single string'}})
+
+
+# ------------------------------------------------------------------------------------------------ the edge of the domain: what the chunk source may be
+SOURCE_PREFIXES = ['', '"a" "b"\n', '"a"\r', '"unterminated', '"esc\\', '// comment', '/* star', '[flag', '(par\n', 'bare', '#dir', '{ "k" "v" }\n']
+BAD_ITEMS = ['bytes', 'int', 'None', 'list', 'decode-error', 'runtime-error']
+
+
+def _bad_source(prefix: str, item: str, cut: bool):
+    """A chunk iterator that delivers `prefix` (whole, or one character per chunk with an empty chunk in between) and then
+    misbehaves: a bytes / non-str chunk, or it raises UnicodeDecodeError (a file opened with the wrong encoding) / RuntimeError."""
+    chunks = ([c for ch in prefix for c in (ch, '')] if cut else [prefix])
+    yield from chunks
+    if item == 'bytes':
+        yield b'more'
+    elif item == 'int':
+        yield 5
+    elif item == 'None':
+        yield None
+    elif item == 'list':
+        yield ['x']
+    elif item == 'decode-error':
+        raise UnicodeDecodeError('utf-8', b'\xff', 0, 1, 'invalid start byte')
+    else:
+        raise RuntimeError('the iterator failed')
+    yield '"never reached"'
+
+
+@U.bounded('hang: no result within the time limit')
+def source_kind_case(prefix: str, item: str, cut: bool, bits: int, via_kv: bool) -> str | None:
+    """What the property allows at the edge of its domain ("any text" = str chunks):
+    * a bytes or other non-str chunk: ValueError when the chunk is reached (documented; such a source is not a text and is
+      outside the property), never a half-made token;
+    * an iterator raising UnicodeDecodeError: the tokenizer's own error type (TokenSyntaxError; KeyValError through
+      Keyvalues.parse) with the message 'Could not decode file!', the current line number and the decode error as __cause__ -
+      "TokenSyntaxError and nothing else" covers files in the wrong encoding;
+    * any other exception of the iterator is the caller's and propagates unchanged;
+    * in every case the tokens delivered before are a prefix of the tokens of the text delivered so far."""
+    from srctools.keyvalues import KeyValError, Keyvalues
+    from srctools.tokenizer import Token, Tokenizer, TokenSyntaxError
+    opts = U.opts_of_bits(bits)
+    if via_kv:
+        try:
+            Keyvalues.parse(_bad_source(prefix, item, cut), allow_escapes=opts['allow_escapes'])
+            return 'no exception'
+        except KeyValError as e:
+            if item == 'decode-error' and e.mess == 'Could not decode file!' and not isinstance(e.__cause__, UnicodeDecodeError):
+                return 'KeyValError without the UnicodeDecodeError as __cause__'
+            return None               # a syntax error of the prefix may come first
+        except ValueError as e:
+            return None if item in ('bytes', 'int', 'None', 'list') and not isinstance(e, UnicodeDecodeError) else f'{type(e).__name__} escaped'
+        except RuntimeError:
+            return None if item == 'runtime-error' else 'RuntimeError escaped'
+        except BaseException as e:  # noqa: BLE001
+            return f'{type(e).__name__} escaped'
+    try:
+        want = []
+        for tv in Tokenizer(prefix, None, **opts):
+            want.append(tv)
+    except TokenSyntaxError:
+        pass
+    tk = Tokenizer(_bad_source(prefix, item, cut), None, **opts)
+    got = []
+    try:
+        for _ in range(len(prefix) + 3):
+            tv = tk()
+            if tv[0] is Token.EOF:
+                return 'EOF although the source misbehaved'
+            got.append(tv)
+        return 'no exception'
+    except TokenSyntaxError as e:
+        if got != want[:len(got)]:
+            return 'tokens before the error differ from the tokens of the text'
+        if e.mess == 'Could not decode file!':
+            if item != 'decode-error':
+                return 'decode error reported for another failure'
+            if not isinstance(e.__cause__, UnicodeDecodeError) or e.line_num != tk.line_num or type(e) is not TokenSyntaxError:
+                return 'decode error without cause / with the wrong line or type'
+        return None                   # a syntax error of the prefix may come first (e.g. a line break inside [flag)
+    except ValueError as e:
+        if isinstance(e, UnicodeDecodeError):
+            return 'UnicodeDecodeError escaped'
+        if item not in ('bytes', 'int', 'None', 'list'):
+            return f'ValueError for {item}'
+        return None if got == want[:len(got)] else 'tokens before the ValueError differ from the tokens of the text'
+    except RuntimeError:
+        return None if item == 'runtime-error' and got == want[:len(got)] else 'RuntimeError escaped'
+    except BaseException as e:  # noqa: BLE001
+        return f'{type(e).__name__} escaped'
+
+
+def source_kind_oracle(ck: Ck) -> None:
+    from srctools.tokenizer import Tokenizer
+    try:
+        Tokenizer(b'"bytes"')
+        r0 = 'Tokenizer(bytes) accepted'
+    except TypeError:
+        r0 = None
+    except BaseException as e:  # noqa: BLE001
+        r0 = f'Tokenizer(bytes) raised {type(e).__name__}'
+    ck.count('oracle_source_kinds')
+    if r0:
+        ck.violation('bad-source:bytes-data', r0, {'kind': 'badsource', 'prefix': '', 'item': 'bytes-data', 'cut': False, 'bits': 6, 'kv': False})
+    done: set[str] = set()
+    for prefix in SOURCE_PREFIXES:
+        for item in BAD_ITEMS:
+            for cut in (False, True):
+                for bits in (6, 127, 2):
+                    for via_kv in (False, True):
+                        ck.count('oracle_source_kinds')
+                        r = source_kind_case(prefix, item, cut, bits, via_kv)
+                        if prefix and cut:
+                            ck.seen(('src', prefix, item, bits, via_kv))
+                        if r is None:
+                            continue
+                        key = f'bad-source:{item}:{"kvparse:" if via_kv else ""}{r.split(" ")[0]}'
+                        if key in done:
+                            continue
+                        done.add(key)
+                        ck.violation(key, f'chunk source delivering {prefix!r}{" one character per chunk" if cut else ""} and then {item}: {r}',
+                                     {'kind': 'badsource', 'prefix': prefix, 'item': item, 'cut': cut, 'bits': bits, 'kv': via_kv})
+    ck.hist('oracle', 'chunk sources that misbehave after a prefix (bytes / non-str chunk, UnicodeDecodeError, RuntimeError) x 12 prefixes x whole / per character x 3 option vectors x Tokenizer / Keyvalues.parse', len(SOURCE_PREFIXES) * len(BAD_ITEMS) * 12)
 
 
 # ------------------------------------------------------------------------------------------------ main
@@ -1529,6 +1679,10 @@ def _stage(ck: Ck, name: str) -> None:
 
 
 def run(ck: Ck) -> None:
+    U.guarded('C03', _run, ck)
+
+
+def _run(ck: Ck) -> None:
     _REPORTED.clear()
     ck.rule = ('exhaustive: every string over the 23-symbol syntax alphabet (" \\ / * { } [ ] ( ) # : + = , CR LF space a n BOM \' ;) up to '
                'length 3 (4 thorough for the correspondence) x all 128 option vectors; oracle additionally x every way of cutting the '
@@ -1554,11 +1708,17 @@ def run(ck: Ck) -> None:
     ok_h = ck.translate('HsRows_gen', c02_hstring.translate)      # _handle_string is part of the chunk-independence model as well
     if not ok_h:
         ck.gen('HsRows_gen', c02_hstring.EMPTY_GEN, {'failed_closed': True})
-    built = ok_t and ok_k and ok_b and ck.build(['Props/C03.vo', 'Text/TokEnum.vo', 'Text/KvErrGen.vo', 'Text/BaseTokEnum.vo', 'Text/ErrFmtGen.vo'])
+    ok_g = U.translate_get_token_trees(ck)      # _get_token / _handle_comment as decision trees + the state census
+    ok_n = ck.translate('NextChar_gen', c03_nextchar.translate)      # _next_char as a table over what the chunk iterator can do
+    if not ok_n:
+        ck.gen('NextChar_gen', c03_nextchar.EMPTY_GEN, {'failed_closed': True})
+    built = ok_t and ok_k and ok_b and ck.build(['Props/C03.vo', 'Text/TokEnum.vo', 'Text/KvErrGen.vo', 'Text/BaseTokEnum.vo', 'Text/ErrFmtGen.vo',
+                                                 'Text/HsGen.vo', 'Text/GtGen.vo', 'Text/NextCharGen.vo'])
     if built:
         started = start_exhaustive_model(ck)
         th = U.theorems_in_background(ck, 'Props/C03.v')
-        U.instance_obligations_parallel(ck, [(U.IMPORTS + ['SV.Text.TokenizerProofs'], {
+        gt_group = U.get_token_tree_group(ok_g, hs_rows=ok_h, next_char=ok_n)
+        inst_res = U.instance_obligations_parallel(ck, ([gt_group] if gt_group else []) + [(U.IMPORTS + ['SV.Text.TokenizerProofs'], {
             'EOF_is_not_an_operator_token': 'ops_no_eof gen_tables',
             'token_enum_values_distinct': 'token_values_distinct',
             'operators_name_known_tokens': 'operators_all_known',
@@ -1596,6 +1756,7 @@ def run(ck: Ck) -> None:
             'error_formats_str_messages_exactly_when_arguments_are_given': 'gen_error_str_form_ok',
             'error_refuses_a_token_with_two_values': 'gen_error_two_values_refused',
         }, 'efinst')]))
+        U.get_token_tree_obligations(ck, ok_g, hs_rows=ok_h, res={k: v for k, v in inst_res.items() if gt_group and k in gt_group[1]})
         _stage(ck, 'translate+build+theorems+instances')
         corr_exhaustive(ck, escalate, started)
         _stage(ck, 'corr_exhaustive')
@@ -1644,6 +1805,20 @@ def replay(data: dict) -> int:
             print(key, '::', what)
         print('VIOLATED' if fake.violations else 'property holds on this input')
         return 1 if fake.violations else 0
+    if r.get('kind') == 'badsource':
+        if r['item'] == 'bytes-data':
+            from srctools.tokenizer import Tokenizer as _T
+            try:
+                _T(b'"bytes"')
+                res = 'Tokenizer(bytes) accepted'
+            except TypeError:
+                res = None
+        else:
+            res = source_kind_case(r['prefix'], r['item'], r['cut'], r['bits'], r['kv'])
+        print(f'chunk source: {r["prefix"]!r} ({"one character per chunk" if r["cut"] else "one chunk"}), then {r["item"]}; options {U.opts_of_bits(r["bits"])}; '
+              f'{"Keyvalues.parse" if r["kv"] else "Tokenizer"}\n -> {res}')
+        print('VIOLATED' if res else 'property holds on this input')
+        return 1 if res else 0
     if r.get('kind') == 'errtext':
         from srctools.tokenizer import Token, Tokenizer, TokenSyntaxError
         tk = Tokenizer('', r.get('file'))
